@@ -135,7 +135,8 @@ HeadFails(rq, h, chkOrig) ==
                    SelectSeq(rest, LAMBDA x : x.n = nm) = SelectSeq(origNV, LAMBDA x : x.n = nm)))
   \cup SClause("C02", "the head must contain exactly one Host header", Count(F, "host") = 1)
   \cup SClause("C02", "the automatic Host header does not name the URI host",
-               autoHost => \E i \in 1..Len(F) : F[i].n = "host" /\ F[i].v = rq.hosthex)
+               \* "host" or "host:port" (hostporthex) both name the URI host
+               autoHost => \E i \in 1..Len(F) : F[i].n = "host" /\ F[i].v \in {rq.hosthex, rq.hostporthex})
   \cup SClause("C02", "framing header missing, duplicated or not the one the body uses",
                CASE fr = "chunked" -> (\E i \in 1..Len(F) : F[i].n = "transfer-encoding" /\ F[i].v \in {HexChunked} \cup { Eff(rq)[j].v : j \in { jj \in 1..Len(Eff(rq)) : Eff(rq)[jj].k = "chunked" } })
                                       /\ Count(F, "transfer-encoding") = Count(Eff(rq), "transfer-encoding") + (IF autoTE THEN 1 ELSE 0)
